@@ -64,6 +64,9 @@ def erase_origins(t):
     return t
 
 
+_BF_COUNTER = [0]
+
+
 def add_boolfix(t):
     if t is None or isinstance(t, str):
         return t
@@ -75,7 +78,10 @@ def add_boolfix(t):
     if k == 'union':
         ms = [add_boolfix(m) for m in t[1]]
         if 'bool' in ms and 'boolfix' not in ms:
-            ms.append('boolfix')
+            # anywhere in the Union: before bool, directly after it (the documented spelling), at the end
+            _BF_COUNTER[0] += 1
+            where = [ms.index('bool') + 1, len(ms), ms.index('bool'), 0][_BF_COUNTER[0] % 4]
+            ms.insert(where, 'boolfix')
         return ('union', ms)
     if k == 'optional':
         return ('optional', add_boolfix(t[1]))
@@ -298,6 +304,20 @@ def tie(ctx, model_ok=True):
 
     def stream2():
         yield from stream()
+        # directed: a Union in which a member after bool also reads boolean scalars (an Enum), at top level and as an attribute
+        for _ in range(max(4, n_models // 6)):
+            specs = loadcase.gen_model(rnd, max_classes=2, hooks=False)
+            col = rnd.choice([('union', ['bool', ('class', 'Col')]), ('union', ['int', 'bool', ('class', 'Col')]),
+                              ('union', [('class', 'Col'), 'bool']), ('union', ['bool', ('class', 'Col'), 'str'])])
+            specs = specs + [{'name': 'Col', 'kind': 'enum', 'members': ['true', 'red', 'yes', 'false'], 'bases': [], 'registered': True},
+                             {'name': 'Holder', 'kind': 'obj', 'bases': [], 'extra': False, 'registered': True,
+                              'params': [{'name': 'c', 'type': col, 'required': True}]}]
+            for leaf in (loadcase.S('true', 'bool'), loadcase.S('false', 'bool'), loadcase.S('red'), loadcase.S('1', 'int')):
+                try:
+                    yield specs, col, loadcase.serialize(leaf), 'directed-enum-or-bool'
+                    yield specs, ('class', 'Holder'), loadcase.serialize(loadcase.M([(loadcase.S('c'), leaf)])), 'directed-enum-or-bool'
+                except Exception:      # noqa
+                    continue
         # directed: application tags on PLAIN scalars below Any (PyYAML's own emitter always quotes tagged scalars, so these
         # texts are written by hand); the style variants then quote them
         for _ in range(n_models // 3):
